@@ -186,6 +186,23 @@ Section CacheProofs.
     f_equal. apply IH; assumption.
   Qed.
 
+  (* with an LRU that may drop any entries between validations *)
+  Definition only_loses_p (evict : pcache Blk -> pcache Blk) : Prop :=
+    forall c b e, pget (evict c) b = Some e -> pget c b = Some e.
+
+  Theorem poa_run_lossy_is_cold steps : forall c, pcache_ok c ->
+    Forall (fun s => only_loses_p (fst s) /\ child (fst (snd s)) (snd (snd s))) steps ->
+    poa_run_lossy Blk blk_eqb R all_of funded_of mbp_of hayabusa_of judge c steps =
+    map (fun s => fst (judge (poa_fresh (fst (snd s))) (fst (snd s)) (snd (snd s)))) steps.
+  Proof.
+    induction steps as [|[ev [p b]] t IH]; intros c Hc Hs; [reflexivity|].
+    inversion Hs as [|? ? [Hev Hpb] Ht]; subst. cbn [fst snd] in Hev, Hpb.
+    assert (Hc0 : pcache_ok (ev c)) by (intros x e X; apply Hc; apply Hev; exact X).
+    destruct (poa_step_ok (ev c) p b Hc0 Hpb) as [Hc' Hr].
+    cbn [Cache.poa_run_lossy map fst snd]. destruct (poa_step (ev c) p b) as [c' r]. cbn [fst snd] in *. subst r.
+    f_equal. apply IH; assumption.
+  Qed.
+
   (* ================================================================ PoS *)
   Variable hk_of : Blk -> bool.
   Variable leaders_of : Blk -> list cand.
@@ -252,6 +269,21 @@ Section CacheProofs.
     inversion Hs as [|? ? Hpb Ht]; subst. cbn [fst snd] in Hpb.
     destruct (pos_step_ok c p b Hc Hpb) as [Hc' Hr].
     cbn [Cache.pos_run map fst snd]. destruct (pos_step c p b) as [c' r]. cbn [fst snd] in *. subst r.
+    f_equal. apply IH; assumption.
+  Qed.
+  Definition only_loses_s (evict : scache Blk -> scache Blk) : Prop :=
+    forall c b l, sget (evict c) b = Some l -> sget c b = Some l.
+
+  Theorem pos_run_lossy_is_cold steps : forall c, scache_ok c ->
+    Forall (fun s => only_loses_s (fst s) /\ child (fst (snd s)) (snd (snd s))) steps ->
+    pos_run_lossy Blk blk_eqb R hk_of leaders_of sjudge c steps =
+    map (fun s => fst (sjudge (leaders_of (fst (snd s))) (fst (snd s)) (snd (snd s)))) steps.
+  Proof.
+    induction steps as [|[ev [p b]] t IH]; intros c Hc Hs; [reflexivity|].
+    inversion Hs as [|? ? [Hev Hpb] Ht]; subst. cbn [fst snd] in Hev, Hpb.
+    assert (Hc0 : scache_ok (ev c)) by (intros x e X; apply Hc; apply Hev; exact X).
+    destruct (pos_step_ok (ev c) p b Hc0 Hpb) as [Hc' Hr].
+    cbn [Cache.pos_run_lossy map fst snd]. destruct (pos_step (ev c) p b) as [c' r]. cbn [fst snd] in *. subst r.
     f_equal. apply IH; assumption.
   Qed.
 End CacheProofs.
